@@ -1,35 +1,46 @@
 #!/bin/bash
-# Must-fail corpus: every mutant patch under selftest/mutants/<ID>/ must make ./check <ID> exit 1.
-# usage: ./selftest.sh [ID ...]   (default: all)
+# Must-fail corpus: every mutant patch under selftest/mutants/<ID>/ must make ./check <ID> exit 1
+# (a *.equiv.patch - a change that does not break the property - must leave it at exit 0).
+# usage: ./selftest.sh [ID ...]   (default: all)      SELFTEST_PAR=<n>: mutants checked concurrently (default 1)
 set -u
 cd "$(dirname "$0")"
 IDS="$@"; [ -z "$IDS" ] && IDS=$(ls selftest/mutants)
-fail=0; total=0
+PAR="${SELFTEST_PAR:-1}"
 # one snapshot of /repo for the whole run (mutants are applied to copies of it; /repo itself is never touched)
 BASE=/var/tmp/verif-selftest-base-$$
-rm -rf $BASE; mkdir -p $BASE; rsync -a --exclude .git /repo/ $BASE/
-trap 'rm -rf $BASE' EXIT
+RES=/var/tmp/verif-selftest-res-$$
+rm -rf $BASE $RES; mkdir -p $BASE $RES; rsync -a --exclude .git /repo/ $BASE/
+trap 'rm -rf $BASE $RES /var/tmp/verif-selftest-$$-*' EXIT
+one() {
+  ID=$1; P=$2; N=$3
+  W=/var/tmp/verif-selftest-$$-$N
+  rm -rf $W; mkdir -p $W
+  rsync -a $BASE/ $W/repo/
+  if ! (cd $W/repo && patch -p1 -s --no-backup-if-mismatch < /verif/$P) >/dev/null 2>&1; then
+    echo "SELFTEST $ID $(basename $P): patch does not apply" > $RES/$N; rm -rf $W; return
+  fi
+  out=$(VERIF_REPO=$W/repo VERIF_OUT=$W/out VERIF_EVIDENCE=$W/ev.json VERIF_NO_SELFTEST=1 ./check $ID quick 2>&1); rc=$?
+  want=1
+  case "$P" in *.equiv.patch) want=0;; esac
+  if [ $rc -ne $want ]; then
+    echo "SELFTEST $ID $(basename $P): expected exit $want, got $rc" > $RES/$N
+  else
+    echo "selftest ok $ID $(basename $P): $(echo "$out" | grep -m1 '^FAILED\|^UNDISCHARGED' | cut -c1-110)" > $RES/$N
+  fi
+  rm -rf $W
+}
+total=0
 for ID in $IDS; do
   [ -d selftest/mutants/$ID ] || continue
   for P in selftest/mutants/$ID/*.patch; do
     [ -f "$P" ] || continue
     total=$((total+1))
-    W=/var/tmp/verif-selftest-$$-$total
-    rm -rf $W; mkdir -p $W
-    rsync -a $BASE/ $W/repo/
-    if ! (cd $W/repo && patch -p1 -s --no-backup-if-mismatch < /verif/$P) >/dev/null 2>&1; then
-      echo "SELFTEST $ID $(basename $P): patch does not apply"; fail=$((fail+1)); rm -rf $W; continue
-    fi
-    out=$(VERIF_REPO=$W/repo VERIF_OUT=$W/out VERIF_EVIDENCE=$W/ev.json VERIF_NO_SELFTEST=1 ./check $ID quick 2>&1); rc=$?
-    want=1
-    case "$P" in *.equiv.patch) want=0;; esac
-    if [ $rc -ne $want ]; then
-      echo "SELFTEST $ID $(basename $P): expected exit $want, got $rc"; fail=$((fail+1))
-    else
-      echo "selftest ok $ID $(basename $P): $(echo "$out" | grep -m1 '^FAILED' | cut -c1-110)"
-    fi
-    rm -rf $W
+    one $ID $P $total &
+    while [ $(jobs -rp | wc -l) -ge $PAR ]; do sleep 0.5; done
   done
 done
+wait
+fail=0
+for i in $(seq 1 $total); do cat $RES/$i; grep -q '^SELFTEST' $RES/$i && fail=$((fail+1)); done
 echo "selftest: $total mutants, $fail not behaving as expected"
 [ $fail -eq 0 ]
